@@ -335,6 +335,7 @@ impl<'a> Gen<'a> {
             if self.cfg.allow_props && self.flags.unicode() { 3 } else { 0 }, // 11 prop
             if !atom_only && self.cfg.allow_modifiers { 2 } else { 0 }, // 12 modifier group
             1,       // 13 empty
+            2,       // 14 long literal (beyond the 16-byte chunk size of byte sequences)
         ]);
         let (node, quantifiable) = match choice {
             0 => (Node::Char(pick_char(self.rng, self.cfg.wide_alphabet)), true),
@@ -403,6 +404,15 @@ impl<'a> Gen<'a> {
                     }
                 };
                 (Node::Mod(add, rem, Box::new(self.disjunction(depth - 1))), true)
+            }
+            14 => {
+                let l = self.rng.range(15, 36);
+                let pool: Vec<u32> = "0123456789abcdefghijklmnopqrstuvwxyzABCDEFGH".chars().map(|c| c as u32).chain([0xE9, 0x4E2D, 0x20AC]).collect();
+                let mut cs: Vec<Node> = vec![];
+                for _ in 0..l {
+                    cs.push(Node::Char(*self.rng.pick(&pool)));
+                }
+                (Node::Cat(cs), false)
             }
             _ => (Node::Empty, false),
         };
